@@ -30,6 +30,7 @@ package object
 //@ props C03 C15 C16
 //@ requires ls != nil && other != nil && ref(other) != nil
 //@ ensures[C15.cmp.range] result1 == nil ==> oneof(result0, -1, 0, 1)
+//@ ensures[C15,C16.cmp.err.zero] result1 != nil ==> result0 == 0
 //@ ensures[C16.sort.cmp.range] result1 == nil ==> oneof(result0, -1, 0, 1)
 //@ callpre[C03.cycle.guard] Compare: ls.compareActive && !old(ls.compareActive)
 //@ ensures[C03.cycle.restore] ls.compareActive == old(ls.compareActive)
